@@ -79,6 +79,24 @@ fn main() {
             limit,
         }),
         "replay" => runner::replay_main(&PathBuf::from(&args[2])),
+        "fuzz-replay" => {
+            // tlsverif fuzz-replay <target> --out <artifact file>: run the artifact through the native oracle
+            let data = std::fs::read(out.clone().unwrap_or_default()).unwrap_or_default();
+            tlsverif::ctx::install_panic_hook();
+            match tlsverif::fuzzing::run_target(&args[2], &data) {
+                Some(v) if v.is_empty() => {
+                    println!("fuzz-replay: no violation");
+                    0
+                }
+                Some(v) => {
+                    for s in v {
+                        println!("fuzz-replay: violation {}", s);
+                    }
+                    1
+                }
+                None => 2,
+            }
+        }
         "gen-corpus" => tlsverif::monitors::c18::gen_corpus(&PathBuf::from(&args[2]), seed, count),
         "fuzz-seeds" => tlsverif::monitors::c18::fuzz_seeds(&PathBuf::from(&args[2]), seed, count),
         _ => usage(),
